@@ -150,6 +150,58 @@ func (r *Runner) args(op *Op) {
 		}()
 		res = append(res, []interface{}{c.Tag, c.Op, c.Kind, cls, n, and, msg, orc})
 	}
+	// a search value that carries BOTH an error and result entries (an unknown logical operator or a failed expectation on
+	// a search that had matched, a valid search refined / widened with something that cannot be evaluated): Delete and
+	// One refuse it - nothing is deleted
+	all := func() *sod.Search { return r.db.Search(r.proto(), "K", ">=", int64(-1<<62)) }
+	for _, mk := range []struct {
+		tag string
+		f   func() *sod.Search
+	}{
+		{"xor", func() *sod.Search { return all().Operation("xor", "K", ">=", int64(-1<<62)) }},
+		{"nand", func() *sod.Search { return all().Operation("", "K", ">=", int64(-1<<62)) }},
+		{"expects", func() *sod.Search { return all().Expects(1 << 20) }},
+		{"expectszn", func() *sod.Search { return all().ExpectsZeroOrN(1 << 20) }},
+		{"and-bad", func() *sod.Search { return all().And("Nope", "=", 1) }},
+		{"or-bad", func() *sod.Search { return all().Or("K", "like", int64(1)) }},
+		{"or-mistyped", func() *sod.Search { return all().Or("K", "=", "a") }},
+	} {
+		cls, msg := "ok", ""
+		before, _ := r.db.Count(r.proto())
+		func() {
+			defer func() {
+				if p := recover(); p != nil {
+					cls, msg = "panic", fmt.Sprint(p)
+				}
+			}()
+			s := mk.f()
+			if before == 0 {
+				return // nothing matched: no entries to carry
+			}
+			if s.Err() == nil {
+				cls = "inconsistent-err"
+				return
+			}
+			if _, e := mk.f().One(); e == nil {
+				cls = "one-ok-after-error"
+			}
+			if e := s.Delete(); e == nil {
+				cls = "delete-ok-after-error"
+			}
+			if after, _ := r.db.Count(r.proto()); after != before {
+				cls = "delete-ok-after-error"
+			}
+			cls2 := classify(s.Err())
+			if cls == "ok" {
+				cls = cls2
+			}
+		}()
+		// (kind "malformed": any error class, no objects)
+		if before == 0 {
+			continue
+		}
+		res = append(res, []interface{}{"both:" + mk.tag, "", "malformed", cls, 0, cls, msg, cls})
+	}
 	_ = sod.ErrCasting
 	r.emit(ev{"ev": "args", "res": res})
 }
